@@ -33,6 +33,7 @@
 #include "libs/acn/E131Node.h"
 #include "plugins/artnet/ArtNetNode.h"
 #include "plugins/espnet/EspNetNode.h"
+#include "plugins/espnet/RunLengthDecoder.h"
 #include "plugins/pathport/PathportNode.h"
 #include "plugins/sandnet/SandNetNode.h"
 #include "plugins/shownet/ShowNetNode.h"
@@ -1083,6 +1084,67 @@ static string do_e1c(const vector<string> &a) {
   return "t=" + trace + ";h=" + hb + ";sole=" + vh::str(sole_ok) + ";spec=" + vh::str(sole_ok == sole ? 1 : 0);
 }
 
+// ---------------------------------------------------------------- ESP Net run-length coded data
+// reference encoder of the format (the same algorithm as ModelEsp.esp_encode; the `enc` key ties them)
+static void esp_lit(vector<uint8_t> *out, uint8_t v) {
+  if (v == 0xFD || v == 0xFE) out->push_back(0xFD);
+  out->push_back(v);
+}
+static vector<uint8_t> esp_ref_encode(const vector<uint8_t> &f) {
+  vector<uint8_t> out;
+  size_t i = 0;
+  while (i < f.size()) {
+    size_t j = i;
+    while (j < f.size() && f[j] == f[i]) j++;
+    size_t n = j - i;
+    if (n < 3) {
+      for (size_t k = 0; k < n; k++) esp_lit(&out, f[i]);
+    } else {
+      while (n > 255) { out.push_back(0xFE); out.push_back(255); out.push_back(f[i]); n -= 255; }
+      out.push_back(0xFE); out.push_back(n); out.push_back(f[i]);
+    }
+    i = j;
+  }
+  return out;
+}
+
+static string do_esr(const vector<string> &a) {
+  // esr <universe> <hu> <old> <frame>: the frame, encoded, as a DATA_RLE datagram to a real EspNetNode
+  using ola::plugin::espnet::EspNetNode;
+  vector<uint8_t> f = vh::unhex(a[4]);
+  vector<uint8_t> enc = esp_ref_encode(f);
+  DmxBuffer rx;
+  buf_init(&rx, a[3]);
+  vector<uint8_t> pkt;
+  pkt.push_back('E'); pkt.push_back('S'); pkt.push_back('D'); pkt.push_back('D');
+  pkt.push_back(vh::num(a[1])); pkt.push_back(0); pkt.push_back(4);
+  pkt.push_back(enc.size() >> 8); pkt.push_back(enc.size() & 255);
+  pkt.insert(pkt.end(), enc.begin(), enc.end());
+  EspNetNode node("");
+  node.m_interface = iface();
+  node.m_socket.Init();
+  node.m_running = true;
+  node.SetHandler(vh::num(a[2]), &rx, ola::NewCallback(&on_data));
+  int before = g_calls;
+  g_rx = pkt; g_rx_valid = true; set_source();
+  node.SocketReady();
+  bool handled = g_calls == before + 1;
+  // Decode() resets the buffer first: an allocated buffer ends up as the frame, a new one as frame + blackout
+  string exp = a[3] == "none" ? (f.empty() ? string("none") : overlay("none", 0, f)) : vh::hex(f);
+  return "enc=" + vh::hex(enc) + ";handled=" + vh::str(handled ? 1 : 0) + ";buf=" + buf_s(rx) +
+         ";spec=" + vh::str((handled && buf_s(rx) == exp) ? 1 : 0);
+}
+
+static string do_esd(const vector<string> &a) {
+  // esd <old> <bytes>: arbitrary bytes through the real RunLengthDecoder (exact-size copy)
+  DmxBuffer dst;
+  buf_init(&dst, a[1]);
+  vh::Exact w(vh::unhex(a[2]));
+  ola::plugin::espnet::RunLengthDecoder dec;
+  dec.Decode(&dst, w.p, w.n);
+  return "dbuf=" + buf_s(dst);
+}
+
 static string handle(const string &p) {
   vector<string> a = vh::split(p);
   const string &op = a[0];
@@ -1100,6 +1162,8 @@ static string handle(const string &p) {
   if (op == "hist" && a.size() == 4) return do_hist(a);
   if (op == "anm" && a.size() == 4) return do_anm(a);
   if (op == "e1c" && a.size() == 4) return do_e1c(a);
+  if (op == "esr" && a.size() == 5) return do_esr(a);
+  if (op == "esd" && a.size() == 3) return do_esd(a);
   if (op == "dec" && a.size() == 4) return do_dec(a);
   if (op == "sn" && a.size() == 7) return do_sn(a);
   if (op == "sa" && a.size() == 8) return do_sa(a);
